@@ -10,43 +10,7 @@ its known defects — and produces the observable trace `List Ev` plus one recor
 `LMTPData` call.
 -/
 namespace SmtpV.Server
-open SmtpV SmtpV.Text SmtpV.Wire SmtpV.Reply SmtpV.Parse SmtpV.Xtext
-
-structure Cfg where
-  lmtp : Bool := false
-  lmtpSess : Bool := false        -- the backend's sessions implement LMTPSession
-  maxRcpt : Nat := 0
-  maxMsg : Nat := 0
-  maxLine : Nat := 2000
-  insecureAuth : Bool := false
-  tlsAvail : Bool := false        -- Server.TLSConfig != nil
-  utf8 : Bool := false
-  reqtls : Bool := false
-  binmime : Bool := false
-  dsn : Bool := false
-  rrvs : Bool := false
-  readTimeout : Bool := false
-  authSess : Bool := false        -- the backend's sessions implement AuthSession
-  mechs : List Bytes := []
-  domain : Bytes := []
-deriving Repr, Inhabited
-
-structure MailOpts where
-  body : Bytes := []
-  size : Nat := 0
-  requireTLS : Bool := false
-  utf8 : Bool := false
-  ret : Bytes := []
-  envid : Bytes := []
-  auth : Option Bytes := none
-deriving DecidableEq, Repr, Inhabited
-
-structure RcptOpts where
-  notify : List Bytes := []
-  orcptType : Bytes := []
-  orcpt : Bytes := []
-  rrvs : Option Int := none       -- unix seconds
-deriving DecidableEq, Repr, Inhabited
+open SmtpV SmtpV.Text SmtpV.Wire SmtpV.Reply SmtpV.Parse SmtpV.Xtext SmtpV.Spec
 
 /-- what a scripted `Data`/`LMTPData` call returns -/
 inductive DRet
@@ -76,35 +40,6 @@ structure Backend where
   auth : List BRes := []          -- result of `Auth(mech)`
   sasl : List SaslStep := []      -- successive `Next` results
   hs : List Bool := []            -- TLS handshake outcomes
-deriving Repr, Inhabited
-
-inductive Ev
-  | w (bs : Bytes)
-  | ns (id : Nat) (helo : Bytes) (tls : Bool) (r : BRes)
-  | mail (id : Nat) (frm : Bytes) (o : MailOpts) (r : BRes)
-  | rcpt (id : Nat) (to : Bytes) (o : RcptOpts) (r : BRes)
-  | reset (id : Nat)
-  | logout (id : Nat)
-  | authMech (id : Nat) (mech : Bytes) (r : BRes)
-  | sasl (resp : Option Bytes) (challenge : Bytes) (done : Bool) (r : BRes)
-  | dataBegin (id : Nat) (k : Nat)
-  | tlsStart (ok : Bool)
-  | panicLog
-  | close
-deriving Repr, Inhabited
-
-/-- how a delivery's reader ended -/
-inductive RdEnd | none | eof | ueof | tooLarge | reset | tooLong | timeout | closed | panicked
-deriving DecidableEq, Repr, Inhabited
-
-/-- one `Data`/`LMTPData` call as the backend saw it -/
-structure DRec where
-  k : Nat
-  sess : Nat
-  octets : Bytes := []
-  rdEnd : RdEnd := .none
-  ret : BRes := .ok
-  finished : Bool := false
 deriving Repr, Inhabited
 
 structure Conn where
@@ -205,13 +140,16 @@ def applyStatuses (rcpts : List Bytes) : List (Bytes × BRes) → List (Bytes ×
 
 /-- the backend returns: record how the reader ended and the result.  An out-of-contract
     `SetStatus` call (LMTPSession backends) is a panic inside the backend. -/
-def delivFinish (s : S) (k : Nat) (e : RdEnd) : S :=
+def delivOutcome (s : S) (k : Nat) (e : RdEnd) : BRes :=
   let dec := delivDec s k
   let stOk := !(s.cfg.lmtp && s.cfg.lmtpSess) ||
     (applyStatuses ((s.c.bdatStatus).getD s.c.recipients) dec.statuses []).2
-  let ret := if stOk then resolveRet dec.ret e else .panic
-  let s := setDrec s k (fun d => { d with finished := true, rdEnd := e, ret := ret })
-  if ret == .panic then emit s .panicLog else s
+  if stOk then resolveRet dec.ret e else .panic
+
+def delivFinish (s : S) (k : Nat) (e : RdEnd) : S :=
+  let ret := delivOutcome s k e
+  let s1 := setDrec s k (fun d => { d with finished := true, rdEnd := e, ret := ret })
+  if ret == .panic then emit s1 .panicLog else s1
 
 def delivRet (s : S) (k : Nat) : BRes := ((s.drecs[k]?).map (·.ret)).getD .ok
 
@@ -219,20 +157,27 @@ def delivRet (s : S) (k : Nat) : BRes := ((s.drecs[k]?).map (·.ret)).getD .ok
 def delivAbort (s : S) (k : Nat) : S :=
   if delivRunning s k then delivFinish s k .reset else s
 
+/-- how many of the octets of a pipe write the backend takes -/
+def delivTake (s : S) (k : Nat) (bs : Bytes) : Nat :=
+  let got := ((s.drecs[k]?).map (·.octets.length)).getD 0
+  match (delivDec s k).want with
+  | none => bs.length
+  | some n => min bs.length (n - got)
+
+/-- has the backend got everything it wants once it has taken `take` more octets? -/
+def delivReached (s : S) (k : Nat) (take : Nat) : Bool :=
+  let got := ((s.drecs[k]?).map (·.octets.length)).getD 0
+  match (delivDec s k).want with
+  | none => false
+  | some n => got + take ≥ n
+
 /-- one `PipeWriter.Write(bs)`: `(state, accepted everything?)` -/
 def delivWrite (s : S) (k : Nat) (bs : Bytes) : S × Bool :=
   if !delivRunning s k then (s, false)
   else
-    let dec := delivDec s k
-    let got := ((s.drecs[k]?).map (·.octets.length)).getD 0
-    let take := match dec.want with
-      | none => bs.length
-      | some n => min bs.length (n - got)
+    let take := delivTake s k bs
     let s1 := setDrec s k (fun d => { d with octets := d.octets ++ bs.take take })
-    let reached := match dec.want with
-      | none => false
-      | some n => got + take ≥ n
-    let s2 := if reached then delivFinish s1 k .none else s1
+    let s2 := if delivReached s k take then delivFinish s1 k .none else s1
     (s2, take == bs.length)
 
 /-- the error a failed pipe write reports: the backend's result, `io.ErrClosedPipe` for nil -/
@@ -244,24 +189,34 @@ def pipeWriteErr (r : BRes) : BRes :=
 
 /-! ### Conn.Close, Conn.reset, protocolError -/
 
-def closeConn (s : S) : S :=
-  let s := match s.c.bdat with
-    | some k => { delivAbort s k with c := { s.c with bdat := none } }
-    | none => s
-  let s := match s.c.session with
-    | some id => { emit s (.logout id) with c := { s.c with session := none } }
-    | none => s
+/-- `bdatPipe.CloseWithError(ErrDataReset); bdatPipe = nil` -/
+def abortBdat (s : S) : S :=
+  match s.c.bdat with
+  | some k => { delivAbort s k with c := { s.c with bdat := none } }
+  | none => s
+
+/-- `session.Logout(); session = nil` -/
+def logoutSess (s : S) : S :=
+  match s.c.session with
+  | some id => { emit s (.logout id) with c := { s.c with session := none } }
+  | none => s
+
+/-- `conn.Close()` (logged once) -/
+def closeSock (s : S) : S :=
   if s.c.closed then s else emit { s with c := { s.c with closed := true } } .close
 
-def resetConn (s : S) : S :=
-  let s := match s.c.bdat with
-    | some k => { delivAbort s k with c := { s.c with bdat := none } }
-    | none => s
-  let s := { s with c := { s.c with bdatStatus := none, bytesReceived := 0 } }
-  let s := match s.c.session with
-    | some id => emit s (.reset id)
-    | none => s
-  { s with c := { s.c with fromReceived := false, recipients := [] } }
+def closeConn (s : S) : S := closeSock (logoutSess (abortBdat s))
+
+/-- `session.Reset()` if there is a session -/
+def resetSess (s : S) : S :=
+  match s.c.session with
+  | some id => emit s (.reset id)
+  | none => s
+
+def clearEnvelope (s : S) : S :=
+  { s with c := { s.c with bdatStatus := none, bytesReceived := 0, fromReceived := false, recipients := [] } }
+
+def resetConn (s : S) : S := clearEnvelope (resetSess (abortBdat s))
 
 def errThreshold : Nat := 3
 
@@ -399,8 +354,9 @@ def handleMail (s : S) (arg : Bytes) : S × Bool :=
               let s := emit s (.mail id frm opts r)
               match r with
               | .ok =>
-                let s := replyB s 250 ⟨2, 0, 0⟩ ["Roger, accepting mail from <".b ++ frm ++ ">".b]
-                ({ s with c := { s.c with fromReceived := true } }, false)
+                -- (the Go code sets the flag after writing the reply; nothing can observe the order)
+                let s := { s with c := { s.c with fromReceived := true } }
+                (replyB s 250 ⟨2, 0, 0⟩ ["Roger, accepting mail from <".b ++ frm ++ ">".b], false)
               | .panic => (s, true)
               | e => (write s (renderError 451 ⟨4, 0, 0⟩ e), false)
 
@@ -600,8 +556,8 @@ def saslLoop : Nat → S → Option Bytes → S × Bool
     | .panic => (s, true)
     | .ok =>
       if st.done then
-        let s := reply s 235 ⟨2, 0, 0⟩ "Authentication succeeded"
-        ({ s with c := { s.c with didAuth := true } }, false)
+        let s := { s with c := { s.c with didAuth := true } }
+        (reply s 235 ⟨2, 0, 0⟩ "Authentication succeeded", false)
       else
         let s := replyB s 334 noEnh [if st.challenge.isEmpty then [] else b64Encode st.challenge]
         match connReadLine s with
@@ -657,9 +613,7 @@ def handleStartTLS (s : S) : S :=
       -- whatever plaintext was buffered is gone
       let w' : W := { (s.tlsW.getD {}) with limit := s.cfg.maxLine, cur := 0, tripped := false, buf := [], err := none }
       let s := { s with w := w', tlsW := none, c := { s.c with tls := true } }
-      let s := match s.c.session with
-        | some id => { emit s (.logout id) with c := { s.c with session := none } }
-        | none => s
+      let s := logoutSess s
       resetConn { s with c := { s.c with helo := [], didAuth := false } }
 
 /-! ### DATA -/
@@ -942,6 +896,7 @@ def loop : Nat → S → S
     else
       match connReadLine s with
       | (s, .ok line) =>
+        let s := emit s (.cmd line)
         match parseCmd line with
         | none => loop fuel (protocolError s 501 ⟨5, 5, 2⟩ "Bad command")
         | some (cmd, arg) => loop fuel (handle s cmd arg)
